@@ -14,8 +14,8 @@ namespace
 
 template <typename T> struct lim;
 template <> struct lim<float> { static constexpr int decades = 7; static constexpr int k = 3; };
-template <> struct lim<double> { static constexpr int decades = 20; static constexpr int k = 7; };
-template <> struct lim<long double> { static constexpr int decades = 20; static constexpr int k = 9; };
+template <> struct lim<double> { static constexpr int decades = 60; static constexpr int k = 7; };
+template <> struct lim<long double> { static constexpr int decades = 1500; static constexpr int k = 9; }; // far beyond the range of double
 
 template <typename T>
 hep::mc_result<T> gen_result(vf::Tape& t, bool allow_empty, T scale, std::size_t fixed_calls = 0)
@@ -153,7 +153,9 @@ void run_t(vf::Ctx& c)
     using It = typename std::vector<R>::const_iterator;
     std::size_t const m = t.pick(5) == 4 ? t.range(0, 12) : t.range(0, 5);
     int const dec = lim<T>::decades;
-    T const scale = static_cast<T>(std::pow(10.0L, static_cast<long double>(static_cast<int>(t.range(0, 2 * dec)) - dec)));
+    T const scale = t.flag() ? static_cast<T>(std::pow(10.0L, static_cast<long double>(static_cast<int>(t.range(0, 12)) - 6)))
+                             : static_cast<T>(std::pow(10.0L, static_cast<long double>(static_cast<int>(t.range(0, 2 * dec)) - dec)));
+    if (std::fabs(std::log10(static_cast<long double>(scale))) > 300) { c.label("beyond-double-range"); }
     bool const allow_empty = t.flag();
     std::vector<R> rs;
     for (std::size_t i = 0; i != m; ++i) { rs.push_back(gen_result<T>(t, allow_empty, scale)); }
